@@ -1004,3 +1004,102 @@ Definition c19_mlru_show (c : nat * option Z * Z * nat * list (@mev carg) * list
   let '(mx, valid, t0, n, h, obs) := c in
   map (fun x => (fst x, o_hit (fst (snd x)), o_res (fst (snd x)), content (snd (snd x))))
       (snd (multi_run (mlru_call ckey_of ckeqb mcf mx valid) lru_tick (repeat (lru_init t0) n) h)).
+
+(* ------------------------------------------------------------------ *)
+(* Round 6: DataFrame.column_names / columncount as a SESSION over objects.  Schema objects (header  *)
+(* lists, tuples, RelationSchema) are created, frames are built ON a schema object (the frame keeps   *)
+(* the object, not a copy), a schema object may be changed in place, and the two cached properties are *)
+(* looked up on frames.  Each property is a single-item cache shared by all frames and keyed by the    *)
+(* FRAME (frames compare by identity): a lookup on the frame of the last lookup returns the value held *)
+(* (computed when that frame was last asked - memoisation of a function that reads mutable state),     *)
+(* any other lookup reads the frame's own schema object as it is now.  Column entries are identifiers  *)
+(* of distinguishable values (1, 1.0, True, "1" are four different names).                            *)
+(* ------------------------------------------------------------------ *)
+Inductive dfop :=
+| DSchema (vals : list Z)          (* a new schema object *)
+| DFrame (s : nat)                 (* DataFrame(rows=[], schema=<object s>) *)
+| DApp (s : nat) (v : Z)           (* in place: append a column *)
+| DSet0 (s : nat) (v : Z)          (* in place: rename the first column *)
+| DPop (s : nat)                   (* in place: drop the last column *)
+| DNames (fr : nat)                (* <frame fr>.column_names *)
+| DCount (fr : nat).               (* <frame fr>.columncount *)
+
+Inductive dfout := ONames (l : list Z) | OCount (n : nat).
+
+Record df_st := mkDF { d_sch : list (list Z); d_fr : list nat;
+                       d_cn : option (nat * list Z); d_cc : option (nat * nat) }.
+Definition df_init : df_st := mkDF [] [] None None.
+
+(* the schema of frame fr as it is now *)
+Definition df_schema (st : df_st) (fr : nat) : option (list Z) :=
+  match nth_error (d_fr st) fr with
+  | Some s => nth_error (d_sch st) s
+  | None => None
+  end.
+
+Definition df_mut (st : df_st) (s : nat) (g : list Z -> list Z) : df_st :=
+  match nth_error (d_sch st) s with
+  | Some l => mkDF (upd (d_sch st) s (g l)) (d_fr st) (d_cn st) (d_cc st)
+  | None => st
+  end.
+
+Definition df_step (st : df_st) (o : dfop) : df_st * list dfout :=
+  match o with
+  | DSchema vals => (mkDF (d_sch st ++ [vals]) (d_fr st) (d_cn st) (d_cc st), [])
+  | DFrame s => if Nat.ltb s (length (d_sch st))
+                then (mkDF (d_sch st) (d_fr st ++ [s]) (d_cn st) (d_cc st), []) else (st, [])
+  | DApp s v => (df_mut st s (fun l => l ++ [v]), [])
+  | DSet0 s v => (df_mut st s (fun l => match l with [] => [] | _ :: r => v :: r end), [])
+  | DPop s => (df_mut st s (fun l => removelast l), [])
+  | DNames fr =>
+      match df_schema st fr with
+      | None => (st, [])
+      | Some cur =>
+          match d_cn st with
+          | Some (g, v) => if Nat.eqb g fr then (st, [ONames v])
+                           else (mkDF (d_sch st) (d_fr st) (Some (fr, cur)) (d_cc st), [ONames cur])
+          | None => (mkDF (d_sch st) (d_fr st) (Some (fr, cur)) (d_cc st), [ONames cur])
+          end
+      end
+  | DCount fr =>
+      match df_schema st fr with
+      | None => (st, [])
+      | Some cur =>
+          match d_cc st with
+          | Some (g, v) => if Nat.eqb g fr then (st, [OCount v])
+                           else (mkDF (d_sch st) (d_fr st) (d_cn st) (Some (fr, length cur)), [OCount (length cur)])
+          | None => (mkDF (d_sch st) (d_fr st) (d_cn st) (Some (fr, length cur)), [OCount (length cur)])
+          end
+      end
+  end.
+
+Fixpoint df_run (st : df_st) (ops : list dfop) : df_st * list dfout :=
+  match ops with
+  | [] => (st, [])
+  | o :: r => let '(s1, o1) := df_step st o in let '(s2, o2) := df_run s1 r in (s2, o1 ++ o2)
+  end.
+
+Definition dfout_eqb (a b : dfout) : bool :=
+  match a, b with
+  | ONames x, ONames y => list_eqb Z.eqb x y
+  | OCount x, OCount y => Nat.eqb x y
+  | _, _ => false
+  end.
+Definition c19_dfs_check (c : list dfop * list dfout) : bool :=
+  list_eqb dfout_eqb (snd (df_run df_init (fst c))) (snd c).
+Definition c19_dfs_show (c : list dfop * list dfout) := snd (df_run df_init (fst c)).
+
+(* the two properties without any cache: what the frame's own schema object spells now *)
+Definition df_spec_step (st : df_st) (o : dfop) : df_st * list dfout :=
+  match o with
+  | DNames fr => match df_schema st fr with Some cur => (st, [ONames cur]) | None => (st, []) end
+  | DCount fr => match df_schema st fr with Some cur => (st, [OCount (length cur)]) | None => (st, []) end
+  | _ => df_step st o
+  end.
+Fixpoint df_spec (st : df_st) (ops : list dfop) : df_st * list dfout :=
+  match ops with
+  | [] => (st, [])
+  | o :: r => let '(s1, o1) := df_spec_step st o in let '(s2, o2) := df_spec s1 r in (s2, o1 ++ o2)
+  end.
+Definition df_inplace (o : dfop) : bool :=
+  match o with DApp _ _ | DSet0 _ _ | DPop _ => true | _ => false end.
